@@ -23,3 +23,12 @@ func VerifBuffered(g *Group) int {
 	defer g.mtx.Unlock()
 	return g.headBuf.Buffered()
 }
+
+// VerifRelease drops the 40 KiB head buffer of a group that has been closed and will not be used again. (A
+// started group is referenced for ever by its processTicks goroutine, which never ends once the ticker is
+// stopped; without this a long enumeration keeps every buffer alive.)
+func VerifRelease(g *Group) {
+	g.mtx.Lock()
+	defer g.mtx.Unlock()
+	g.headBuf = nil
+}
